@@ -88,9 +88,25 @@ func entTarget(shape int) (interface{}, func() string) {
 		o := new(struct{})
 		return o, func() string { return "obj" }
 	}
+	if shape == 5 {
+		p := new(entPage)
+		return p, func() string { return fmt.Sprintf("page:%d|%q|%q|%q|%q", p.ID, p.Link, p.Meta, p.Br, p.Note) }
+	}
 	v := new(entValue)
 	return v, func() string { return render(v) }
 }
+
+// shape 5: a document whose element names are also names of HTML elements without content (to XML they are names like
+// any other)
+type entPage struct {
+	XMLName xml.Name `json:"-" xml:"page"`
+	ID      int64    `json:"id" xml:"id"`
+	Link    string   `json:"link" xml:"link"`
+	Meta    string   `json:"meta" xml:"meta"`
+	Br      string   `json:"br" xml:"br"`
+	Note    string   `json:"note" xml:"note"`
+}
+
 func entWritten(vs Sx) interface{} {
 	switch entShape(vs) {
 	case 1:
@@ -101,9 +117,32 @@ func entWritten(vs Sx) interface{} {
 		return []int64{}
 	case 4:
 		return struct{}{}
+	case 5:
+		v := entValueOf(vs)
+		return &entPage{ID: v.I, Link: v.S, Meta: "m", Br: "b " + v.S, Note: "after"}
 	}
 	return entValueOf(vs)
 }
+
+// the canonical rendering of the value as it was before it was written (what reading it back must give)
+func entOriginalRendering(vs Sx) string {
+	switch w := entWritten(vs).(type) {
+	case int64:
+		return fmt.Sprintf("int:%d", w)
+	case string:
+		return fmt.Sprintf("str:%q", w)
+	case []int64:
+		return fmt.Sprintf("arr:%v", w)
+	case struct{}:
+		return "obj"
+	case *entPage:
+		return fmt.Sprintf("page:%d|%q|%q|%q|%q", w.ID, w.Link, w.Meta, w.Br, w.Note)
+	case *entValue:
+		return render(w)
+	}
+	return "?"
+}
+
 func entValueOf(s Sx) *entValue {
 	v := &entValue{I: entInts[sxInt(sxNth(s, 0))], S: sxStr(sxNth(s, 1)), B: sxBool(sxNth(s, 2))}
 	for _, it := range sxList(sxNth(s, 3)) {
@@ -145,6 +184,9 @@ func genEnt(r *Rng) Sx {
 				// streaming decoder legitimately succeeds; the model's all-or-nothing inflate oracle does not cover that
 				broken = 2
 			}
+		}
+		if len(sxList(val)) == 4 && r.Pct(12) {
+			val = Ls(append(append(Ls{}, sxList(val)...), 5))
 		}
 		reqs = append(reqs, L(A(ct), A(ce), val, codec, B(r.Bool()), enc, broken))
 	}
@@ -336,7 +378,9 @@ func runEnt(raw Sx) (Sx, Sx) {
 			l = l[:7]
 		}
 		bodies[i] = entBody(Ls(l))
-		full = append(full, append(append(Ls{}, l...), entOracle(entShape(sxNth(Ls(l), 2)), bodies[i])))
+		orc := append(Ls{}, sxList(entOracle(entShape(sxNth(Ls(l), 2)), bodies[i]))...)
+		orc = append(orc, A(entOriginalRendering(sxNth(Ls(l), 2)))) // sixth: the value before it was written
+		full = append(full, append(append(Ls{}, l...), orc))
 	}
 	c := entContainer()
 	seq, fresh, conc := Ls{}, Ls{}, Ls{}
